@@ -439,6 +439,7 @@ func (d *drv) probe(tag string) {
 		// ports: a label value (other than a histogram bound) that is the client's port or ends in ":<port>",
 		// or a metric/label NAME containing the port
 		ports := map[string]bool{}
+		seenExp := map[string]bool{}
 		for _, p := range d.clientPorts {
 			ports[strconv.Itoa(p)] = true
 		}
@@ -447,9 +448,12 @@ func (d *drv) probe(tag string) {
 			if name == "le" || name == "quantile" {
 				continue
 			}
-			if ports[val] {
-				exposed = append(exposed, name+"="+val)
-			} else if i := strings.LastIndex(val, ":"); i >= 0 && ports[val[i+1:]] {
+			hit := ports[val]
+			if i := strings.LastIndex(val, ":"); !hit && i >= 0 && ports[val[i+1:]] {
+				hit = true
+			}
+			if hit && !seenExp[name+"="+val] && len(exposed) < 20 {
+				seenExp[name+"="+val] = true
 				exposed = append(exposed, name+"="+val)
 			}
 		}
